@@ -24,7 +24,8 @@ def sites : List (Nat × Nat × Nat) := [
   (2, 106, 1),  -- messages/block_header.rs  fn write: .write_u32
   (3, 50, 1),  -- messages/block_locator.rs  fn write: .write_u32
   (4, 138, 1),  -- messages/cmpctblock.rs  fn write: .write_u64
-  (4, 143, 0),  -- messages/cmpctblock.rs  fn write: .write_all
+  (4, 143, 4),  -- messages/cmpctblock.rs  fn write: .write_vectored
+  (4, 145, 0),  -- messages/cmpctblock.rs  fn write: .write_all
   (5, 67, 1),  -- messages/createstrm.rs  fn write: .write_u8
   (5, 68, 0),  -- messages/createstrm.rs  fn write: .write_all
   (5, 71, 1),  -- messages/createstrm.rs  fn write: .write_u8
